@@ -48,8 +48,10 @@ def _c15_harnesses():
     for backing, label in (("vec", "Vec<u8>"), ("small", "SmallVec<[u8;2]>")):
         for op, owner, post, covers in ops:
             names = ["c15_%s_%s" % (backing, op)]
+            if op == "pop_back" and backing == "small":
+                continue
             if op == "advance":
-                names = ["c15_%s_advance_%s" % (backing, x) for x in ("abc" if backing == "vec" else "ab")]
+                names = ["c15_%s_advance_%s" % (backing, x) for x in ("abc" if backing == "vec" else "a")]
                 covers = 0
             for nm in names:
               hs.append(Harness(
@@ -60,6 +62,13 @@ def _c15_harnesses():
                 ": every (length, consumed prefix) pair enumerated, contents symbolic; inductive per operation => all "
                 "histories within that size",
                 covers=covers, timeout=900, mod="sliding_deque"))
+    for nm, label in (("c15_vec_container_contract", "Vec<u8>"), ("c15_smallvec_container_contract", "SmallVec<[u8;2]>")):
+        hs.append(Harness(nm, ["C15"], "impl PushTruncateContainer for " + label,
+                          "the container contract the Verus proof of SlidingDeque relies on, on the real implementation: push "
+                          "appends one element, pop removes/returns the last (None on empty), truncate(k) keeps min(k, len) "
+                          "elements, slice/slice_mut expose the contents in order and writes through slice_mut are visible",
+                          kind="bounded", bound="containers of at most {NC} elements (length enumerated, contents symbolic)",
+                          timeout=900, mod="sliding_deque"))
     return hs
 
 
@@ -96,27 +105,30 @@ SLIDING_DEQUE = KaniUnit(
     crate="sliding_deque",
     attachments=[("sliding_deque/src/sliding_deque.rs", os.path.join(KC, "sliding_deque.rs"), "sliding_deque"),
                  ("sliding_deque/src/sorted_deque.rs", os.path.join(KC, "sorted_deque.rs"), "sorted_deque")],
-    params={"quick": {"N": 5, "NS": 3, "U": 12, "M": 4}, "thorough": {"N": 7, "NS": 4, "U": 14, "M": 5}},
+    params={"quick": {"N": 5, "NS": 3, "NC": 4, "U": 12, "M": 4}, "thorough": {"N": 7, "NS": 4, "NC": 6, "U": 14, "M": 5}},
     harnesses=_c15_harnesses() + _c16_harnesses(),
 )
 
 _C11_BOUND = "at most {K} pairs, values of at most {VL} bytes, all u32 tags"
 _C11 = [
-    Harness("c11_new_layout_roundtrip", ["C11"], "MessageWrapper::{new,encode,rough_tlv_len}",
+    Harness("c11_new_layout", ["C11"], "MessageWrapper::{new,encode,rough_tlv_len}",
             "unsorted lists with repeated tags and empty values: emitted bytes are exactly count | N-1 cumulative end offsets | "
-            "N tags ascending, ties in insertion order | values concatenated; emitted length == rough_tlv_len; MessageView accepts "
-            "them and iter/get/find return the same pairs in the same order", kind="bounded", bound=_C11_BOUND, covers=4,
-            timeout=1500, mod="encoder"),
+            "N tags ascending, ties in insertion order | values concatenated; emitted length == rough_tlv_len",
+            kind="bounded", bound=_C11_BOUND, covers=4, timeout=1500, mod="encoder"),
+    Harness("c11_new_roundtrip", ["C11"], "MessageWrapper::encode -> MessageView",
+            "MessageView accepts the emitted bytes and iter/get/find return the same pairs in the same (stable, sorted) order",
+            kind="bounded", bound="at most {KR} pairs, values of at most {VL} bytes, all u32 tags", covers=1, timeout=1500,
+            mod="encoder"),
     Harness("c11_cow_values", ["C11"], "MessageWrapper::{new_from_slice,encode}",
             "Cow values: Borrowed goes through append_borrow, Owned through append_copy; same layout and round trip",
-            kind="bounded", bound=_C11_BOUND, covers=1, timeout=1500, mod="encoder"),
+            kind="bounded", bound="at most {KR} pairs, values of at most {VL} bytes", covers=1, timeout=1500, mod="encoder"),
     Harness("c11_new_from_sorted", ["C11"], "MessageWrapper::new_from_sorted",
             "rejects exactly the lists whose tags decrease somewhere; accepted lists encode in the given order",
             kind="bounded", bound=_C11_BOUND, covers=2, timeout=1500, mod="encoder"),
     Harness("c11_nested_message", ["C11"], "MessageWrapper as ToRoughTLV",
             "a value that is itself a message: lengths add up, the outer view yields bytes that the inner view decodes to the "
             "inner pair", kind="bounded", bound="one level of nesting, one pair each, value <= {VL} bytes", timeout=1500,
-            mod="encoder"),
+            mod="encoder", tiers=("thorough",)),
     Harness("c11_length_limits_full_domain", ["C11"], "MessageWrapper::compute_len",
             "for value lengths over the FULL usize domain: Err <=> some length > i32::MAX or (header + sum of lengths, computed "
             "without saturation) > i32::MAX; Ok(l) => l is the exact total", kind="bounded",
@@ -128,7 +140,7 @@ ROUGH_TLV = KaniUnit(
     crate="rough_tlv",
     attachments=[("rough_tlv/src/decoder.rs", os.path.join(KC, "rough_tlv_decoder.rs"), "decoder"),
                  ("rough_tlv/src/encoder.rs", os.path.join(KC, "rough_tlv_encoder.rs"), "encoder")],
-    params={"quick": {"L": 20, "U": 6, "K": 2, "VL": 2, "U11": 8}, "thorough": {"L": 24, "U": 7, "K": 3, "VL": 3, "U11": 12}},
+    params={"quick": {"L": 20, "U": 6, "K": 2, "KR": 1, "VL": 1, "U11": 8}, "thorough": {"L": 24, "U": 7, "K": 3, "KR": 2, "VL": 2, "U11": 12}},
     harnesses=_C11 + [
         Harness("c12_new_accepts_exactly", ["C12"], "MessageView::new",
                 "never panics; Ok <=> >= 4 bytes /\\ 8N <= len /\\ offsets non-decreasing /\\ tags non-decreasing "
@@ -187,7 +199,9 @@ KANI_UNITS = {u.crate: u for u in [VOUCHED_TIME, SLIDING_DEQUE, ROUGH_TLV, HCOBS
 
 import units_hcobs
 import units_vouched_time
-VERUS_UNITS = {"hcobs": units_hcobs.HCOBS, "vouched_time": units_vouched_time.VOUCHED_TIME_VX}
+import units_sliding_deque
+VERUS_UNITS = {"hcobs": units_hcobs.HCOBS, "vouched_time": units_vouched_time.VOUCHED_TIME_VX,
+               "sliding_deque": units_sliding_deque.SLIDING_DEQUE_VX}
 
 # property -> description of how it is decided
 PROPERTIES = {
@@ -209,10 +223,22 @@ PROPERTIES = {
 }
 
 PROPERTIES["C15"] = {
-    "level": "model_checking",
+    "level": "proof",
     "kani_units": ["sliding_deque"],
-    "verus_units": [],
+    "verus_units": ["sliding_deque"],
     "assumptions": [
+        "Verus (unbounded, generic in the container): every SlidingDeque operation is proved against the reference deque for "
+        "ANY container honouring the PushTruncateContainer contract woven into the trait (vx/sliding_deque/overlays/trait.ovl); "
+        "Vec<T>'s implementation of that contract is proved from vstd's Vec specification; SmallVec's is ASSUMED and "
+        "cross-checked by the bounded Kani harness c15_smallvec_container_contract",
+        "ASSUMED std contract: <[T]>::copy_within(src.., dest) is memmove (N9 alias slice_copy_within_from)",
+        "N12: Deref::deref / DerefMut::deref_mut bodies are verified re-homed as inherent methods under the precondition "
+        "'read pointer inside the container'; the trait methods are assumed-contract stubs with the same postcondition and "
+        "every auto-deref call site in the unit asserts that precondition; SlidingDeque::new (derived Default) is covered "
+        "only by the Kani harness",
+        "both build configurations are verified: debug assertions on (the test profile, check_rep asserts active) and "
+        "-C debug-assertions=off (slide's release-only early return)",
+        "the Kani harnesses below are bounded cross-checks on the real Vec / SmallVec code:",
         "bounded: backing container length <= 5 quick / 7 thorough for Vec<u8>, <= 3 / 4 for SmallVec<[u8;2]> (inline->heap "
         "transition at 2 is inside the bound; CBMC exhausts 20 GB beyond); element type u8",
         "induction over operations is a meta-argument (each operation proved from an arbitrary rep_ok state)",
@@ -252,7 +278,7 @@ PROPERTIES["C11"] = {
     "kani_units": ["rough_tlv"],
     "verus_units": [],
     "assumptions": [
-        "bounded: <= 2 pairs x <= 2-byte values (quick), <= 3 x <= 3 (thorough); all u32 tags; the i32::MAX rule over all "
+        "bounded: <= 2 pairs x <= 1-byte values (quick), <= 3 x <= 2 (thorough); all u32 tags; the i32::MAX rule over all "
         "usize lengths; pair count > i32::MAX not materialisable (inspection only)",
         "sink = a recording ZeroCopySink defined in the harness: MessageWrapper is generic in its sink and OwningIovec / the "
         "HCOBS Encoder cannot be loaded into Kani (arena; measured out-of-memory) -- 'all ZeroCopySink targets' is therefore "
